@@ -134,6 +134,12 @@ def run(pid, tier, seed):
             notes.append("translator: " + gerr)
         coq = vlib.coq_build_prop(pid, timeout=3000, allowed_axioms=cfg["axioms"])
         hyg = vlib.coq_hygiene()
+        chk = None
+        if tier == "thorough" and coq["ok"]:
+            chk = vlib.coqchk_prop(pid, cfg["axioms"])
+            if not chk["ok"]:
+                coq["ok"] = False
+                coq["failed"] = "coqchk: rc=%s unsafe=%s axioms-not-allowed=%s" % (chk["rc"], chk["unsafe"], chk["not_allowed"])
         m_exe, mout = model_exe(cfg)
         h_exe, hout = vlib.build_harness(cfg["harness"])
     if h_exe is None:
@@ -229,6 +235,7 @@ def run(pid, tier, seed):
         samples=samples, generator_histogram=dict(hist), implementation_outcomes=dict(outcome),
         model_vs_implementation_differences=len(diffs), corpus_cases=len(corpus),
         known_findings_hit=list(known_hits.keys()), notes=notes,
+        coqchk=(dict(ok=chk["ok"], axioms=chk["axioms"], unsafe=chk["unsafe"]) if chk else "thorough tier only"),
     )
     vlib.write_evidence(pid, tier, seed, coverage,
                         ["the Gallina model is hand-written; its tie to /repo is the differential run reported here",
